@@ -23,7 +23,9 @@ prop("C01", "bbs",
      "one case = (suite, L, header class, message-content class, oversized-message size) with a key pair from the "
      "real KeyGen on seeded key material; each case runs sign, verify, to_bytes/from_bytes, verify of the decoded "
      "signature, and the None/empty equivalences. distinct_nontrivial counts distinct case tuples (all are "
-     "non-trivial: every case signs and verifies).",
+     "non-trivial: every case signs and verifies)."
+     " Before each case the thread runs a history warm-up (other sizes / interfaces); after signing, a NEWLY SPAWNED thread "
+     "signs again (bytes must be identical) and verifies the signature (fresh-thread oracle).",
      BBS_BASE, (800, 3000), (600, 3600),
      exhaustive_subspaces=["L in 0..=3 x 6 header classes x 6 message classes x 2 suites"])
 
@@ -35,7 +37,9 @@ prop("C02", "bbs",
      "header bit flip / truncate / remove / empty / add / extend / prefix, other key, -pk, identity, G2 generator, 2*pk, "
      "signature bit flips (all 640 for selected honest tuples, else 24 sampled), other suite's verifier on the same key, "
      "blind_sign<->verify and sign<->verify_blind_sign. Trivial edits (edited vector equals the signed one, e.g. swapping "
-     "equal messages) are detected by value, skipped and not counted.",
+     "equal messages) are detected by value, skipped and not counted."
+     " Header classes up to 70000 B; header replaced by a digest of itself (SHA-256, hash_to_scalar under three DSTs, "
+     "expand_message); each scenario first signs / verifies lists of other sizes with the same key on the same thread.",
      BBS_BASE + ["an accepted edit would be a defect or a hash collision (p < 2^-250): no false alarms"],
      (5000, 60000), (900, 7200),
      exhaustive_subspaces=["all 640 single-bit flips of the signature for selected honest tuples",
@@ -45,7 +49,9 @@ prop("C03", "bbs",
      "one case = (suite, L, disclosed set, header class, ph class). For each honest signature every listed disclosure set "
      "runs proof_gen (production randomness; the hook must see exactly 5+U draws), length check 272+32U, proof_verify, "
      "to_bytes/from_bytes equality and proof_verify of the decoded proof; None/empty argument variants alternate. "
-     "All 2^L subsets for small L, structured + random subsets for large L. Every case is non-trivial.",
+     "All 2^L subsets for small L, structured + random subsets for large L. Every case is non-trivial."
+     " A quarter of the subsets (and every all-disclosed proof) additionally goes through serde_json and is verified after "
+     "decoding; a quarter is verified on a freshly spawned thread; history warm-up before each signature.",
      BBS_BASE, (3000, 20000), (900, 7200),
      exhaustive_subspaces=["all 2^L disclosure sets for L = 0..=8 (quick) / 0..=11 (thorough), both suites"])
 
@@ -59,7 +65,10 @@ prop("C04", "bbs",
      "for a key the harness never signs with and claimed messages of its choice: Abar=Bbar=O with D=Bv or k*Bv and r3^=-c/k "
      "(T1,T2 independent of c), all-identity, D=O guesses, pairing-degenerate pairs (P1,P1), (G,G), (X,-X), single identity; "
      "each through from_bytes and through serde_json, plain and blind interface (every signer/committed split). workload C: "
-     "identity injected into every subset of the three proof points of an honest proof. Oracle: never Ok.",
+     "identity injected into every subset of the three proof points of an honest proof. Oracle: never Ok."
+     " Also: every whole-scalar truncation and cuts to 0/48/96/144 bytes; an index listed twice with an unsigned message; "
+     "index aliases +-64, +-256, +65536; honest proofs over L = 70/33 (130/260) with deep disclosed positions; forgery family "
+     "with Abar, Bbar of order 3 (outside the prime-order subgroup, c mod 3 guessed).",
      BBS_BASE + ["soundness is monitored against the listed edits and forgery families, not against every adversary",
                  "reference implementation reproduces all fixtures first (else inconclusive)"],
      (15000, 150000), (900, 7200),
@@ -83,7 +92,10 @@ prop("C06", "bbs",
      "signature bit flips, other suite; (3) blind_proof_verify with edits of disclosed data, every index moved everywhere, "
      "re-labelling committed<->signer (incl. wrapped indexes), the blind slot as disclosed index, L' in {0, None, L-1, L+1, "
      "n-1, n, n+1, 2^32, usize::MAX-1, usize::MAX}, ph, header, pk, proof bit flips. Oracle: never Ok (a panic counts as "
-     "not accepted here and is C08's business).",
+     "not accepted here and is C08's business)."
+     " Also: every whole-scalar truncation down to the bare point; identity / Q2 / last generator / negated point with honest, "
+     "random and zero scalars; a commitment shifted by an order-3 point with the challenge ground to c = 1 mod 3; shapes (70,2) "
+     "((2,70), (130,5)).",
      BBS_BASE, (8000, 60000), (900, 7200),
      exhaustive_subspaces=["every single-bit flip of the commitment-with-proof octets for selected honest runs"],
      min_counters={"commitments_with_all_bit_flips": 2})
@@ -145,7 +157,9 @@ prop("C10", "bbs",
      "index/message/L/header edits, re-labelling). Schedules: the same case list executed by 2/8/16 barrier-released threads in "
      "per-thread shuffled order with random 0-200us spins between calls; every output compared with the single-threaded reference "
      "result; the set of concurrently active operation-kind pairs is recorded (fewer than 20 distinct pairs => inconclusive). Zero "
-     "proof response scalars are outside the decision domain.",
+     "proof response scalars are outside the decision domain."
+     " Also: the signer handed a public key that does not belong to its secret key (sign, blind_sign); api ids that are not valid "
+     "UTF-8; the non-canonical alias value + r of every honest scalar.",
      BBS_BASE + ["the reference shares only the curve arithmetic / hash_to_curve / hash functions with the library"],
      (5000, 40000), (900, 7200), sanitizer="tsan",
      min_counters={"concurrent_kind_pairs": 20})
@@ -157,7 +171,9 @@ prop("C11", "bbs",
      "every split of the positions into signer/committed lists, blind factor none/zero/prover's; oracle: never Ok. Generators: "
      "create(n, a) for 7 api ids x 2 expanders; one global set of compressed points decides duplicate-freeness within and "
      "disjointness across all (expander, api id) sets; none is the identity, +-G1 base point or either suite's P1; "
-     "create(n,a)[..k] == create(k,a) for k<=16, powers of two, n-1; None == empty api id.",
+     "create(n,a)[..k] == create(k,a) for k<=16, powers of two, n-1; None == empty api id."
+     " 13 api ids incl. pairs that differ only in invalid UTF-8 bytes; the public helper prepare_parameters for api id None / "
+     "empty / suite / blind / custom against the reference (generators, scalars, duplicate-freeness).",
      BBS_BASE, (1500, 4000), (600, 3600))
 
 prop("C12", "bbs",
@@ -176,7 +192,8 @@ prop("C13", "cl",
      "offline by an independent Miller-Rabin (lib/cl_offline.py). Negative (oracle: verify = false): each attribute changed / "
      "replaced; the secret-key-free derivation (e, s, v*a_i^k) for m_i + k*e with k in {1, 2, 1024, -1, -2} (also the shifted "
      "vector with the original signature); m_i + 2^lm; negative attribute; swapped positions; dropped non-zero attribute; 18 "
-     "edits of (e, s, v); reversed / other bases; other key; b<->c. Attribute classes: 0, 1, 2^lm-1, hash-derived, random.",
+     "edits of (e, s, v); reversed / other bases; other key; b<->c. Attribute classes: 0, 1, 2^lm-1, hash-derived, random."
+     " Volume sweep: 800 (8000) further signatures on random vectors: verify, byte and JSON round trips, e bit length / primality.",
      CL_BASE, (2000, 6000), (900, 10800))
 
 prop("C18", "cl",
@@ -186,7 +203,9 @@ prop("C18", "cl",
      "coprime, QR mod p and mod q; h generates QR_N (h^p' != 1 != h^q'). For a commitment key with its own modulus only size, "
      "range, gcd and Jacobi symbol +1 are checkable (factorisation is discarded by the API). In the worker: to_bytes/from_bytes "
      "and serde round trips for pk, sk, key pair, commitment key, bases, signature; random_bits(n) for n in {1,2,8,64,255,256,257,"
-     "1024,1536}: exactly n bits, top bit set, no repeats for n>=64; rand_int(a,b) in [a,b] incl. a=b, negative a, both end points reachable.",
+     "1024,1536}: exactly n bits, top bit set, no repeats for n>=64; rand_int(a,b) in [a,b] incl. a=b, negative a, both end points reachable."
+     " Toy special-RSA moduli (35 .. 59701) for random_qr / Bases::generate / random_number / commitment-key generation with brute-force "
+     "residue tables and <h> membership; random_prime(n) bit length and primality; encodings of keys / signatures with special-shape values.",
      CL_BASE, (1500, 6000), (900, 10800), min_counters={"key_pairs_recorded": 3})
 
 prop("C14", "cl",
@@ -197,7 +216,10 @@ prop("C14", "cl",
      "not on the old one (and the old signature not on the new vector). Mismatches (oracle: verify_proof != true and blind_sign "
      "does not return; its panic is the refusal): commitment to other attributes, commitment value + 1, every other hidden set, "
      "other bases, other pk, other trusted commitment; every integer leaf of the serialized ZKPoK +1 / -1 / zero and sibling "
-     "swaps (every field class at least once), blind_sign attempted on a sample of tampered proofs.",
+     "swaps (every field class at least once), blind_sign attempted on a sample of tampered proofs."
+     " Revealed (index, attribute) pairs are listed ascending / descending / rotated; with a trusted commitment also: proof generated "
+     "without the trusted part, trusted sub-proof stripped; +N on every integer leaf; credentials with 70 / 33 attributes and deep hidden "
+     "positions.",
      CL_BASE, (600, 2500), (1800, 14400),
      exhaustive_subspaces=["all non-empty hidden subsets for n = 1..=3 (quick) / 1..=5 (thorough), with and without trusted commitment"],
      min_counters={"zkpok_tampered_variants": 200})
@@ -209,7 +231,9 @@ prop("C15", "cl",
      "commitment key (other, rotated bases, h squared, other modulus), every other hidden set, attribute count n+-1 with a non-zero "
      "difference, proof of another signature, proof generated from a mismatching signature; every integer leaf of the serialized "
      "proof +1 / -1 / zero and sibling swaps for selected proofs. (An extra / dropped attribute equal to 0 contributes a^0 = 1 and "
-     "is the same statement: not asserted.)",
+     "is the same statement: not asserted.)"
+     " Also: revealed attribute shifted by N, 2N, -N, N^2, 2^lm; attribute count edited upwards with the unchanged revealed list and a "
+     "roomy commitment key; +N on every integer leaf; credentials with 70 / 33 attributes.",
      CL_BASE, (500, 2000), (1800, 14400),
      exhaustive_subspaces=["all hidden subsets for n = 1..=3 (quick) / 1..=5 (thorough)"],
      min_counters={"proof_tampered_variants": 200})
@@ -222,7 +246,8 @@ prop("C16", "cl",
      "a+-1 / b+-1 / shifted, swapped / other bases, h^2, other modulus => false. Transplants of the honest proof onto commitments to "
      "a-1, b+1, b+2^64, 10b, a-2^64, a random group element and the same value under other randomness, in four variants (recompute "
      "E_*_1 keeping all sub-proofs; recompute E_*_2; replace E only; recompute E_*_1 and re-point the square proofs' E) => false. "
-     "Every integer leaf +1 / -1 / zero and sibling swaps for selected proofs => false. Domain 0 <= a < b.",
+     "Every integer leaf +1 / -1 / zero and sibling swaps for selected proofs => false. Domain 0 <= a < b."
+     " Volume sweep of 1500 (12000) honest proofs on small mixed intervals (rare challenge shapes); +N on every integer leaf.",
      CL_BASE, (1500, 6000), (1800, 14400), min_counters={"transplants": 200, "proof_tampered_variants": 100})
 
 prop("C17", "cl",
@@ -232,7 +257,10 @@ prop("C17", "cl",
      "every secret x the prover holds (hidden m_i, e, s, commitment randomness r) it tests value == g^x * h^rho, with a decoy x' per "
      "secret (dictionary attack succeeds iff true value confirmed and decoy not); value * g^(-rho) == v; the whole hidden vector "
      "from multi-base commitments; and complete openings (g^leaf1 * h^leaf2 == value) made of proof fields only. A violation names "
-     "the leaking (value field, randomness field) pair and the secret.",
+     "the leaking (value field, randomness field) pair and the secret."
+     " Also: issuance proofs with a trusted commitment and with equal hidden attributes; proofs over 70/33 (96/130) attributes; exact "
+     "division of every field by c, c+-1; sibling-difference attack (s_j - s_k)/c vs m_j - m_k and equal-responses test; products / "
+     "quotients of the group elements of one range proof against g^k for public functions k of the hidden value (with a decoy).",
      CL_BASE + ["secrets internal to proof_gen (w, rw, rx, re) are only tested through fields of the proof itself"],
      (20, 40), (1800, 14400), min_counters={"dictionary_attacks_run": 40, "modular_exponentiations": 3000})
 
@@ -242,7 +270,8 @@ prop("C19", "cl",
      "nispMultiSecrets challenges) and every other leaf s': |floor(s/c) - x| >= 2^64 and |floor(s/s') - x| >= 2^64 for every "
      "secret x the prover holds (hidden m_i, e, s, commitment randomness r) and for the values each Boudot sub-proof answers for "
      "(square roots / remainders, public functions of a known secret and the public bounds: keyed `derived-witness`); plus the "
-     "attacker's inversion of Boudot's square decomposition x' = (floor(d/c)^2 + aa)/2^T resp. (bb - floor(d/c)^2)/2^T.",
+     "attacker's inversion of Boudot's square decomposition x' = (floor(d/c)^2 + aa)/2^T resp. (bb - floor(d/c)^2)/2^T."
+     " Also: trusted-commitment and equal-hidden-attribute issuance proofs, 70/33 (96/130)-attribute proofs, sibling-difference attack.",
      CL_BASE + ["with correctly sized masks (top bit forced by random_bits) the bound holds deterministically for s/c and with "
                 "probability > 1 - 2^-190 for s/s': no false alarms"],
      (20, 40), (1800, 14400), min_counters={"divisions": 50000, "boudot_inversions_run": 50})
